@@ -33,6 +33,10 @@ WITNESSES = [
     "0.3::p; 0.3::t :- \\+q. q :- \\+p. query(t).",                    # through an AD
     "m(a,b). m(b,a). w(X) :- m(X,Y), \\+w(Y). query(w(a)).",           # first-order, cyclic moves
     "m(a,b). m(b,c). w(X) :- m(X,Y), \\+w(Y). query(w(a)).",           # first-order, acyclic: must_answer
+    "0.5::a. 0.5::b. p :- \\+q. p :- a. q :- r. r :- q. r :- p, b. query(p).",      # positive sub-cycle below the negation
+    "0.5::a. 0.5::b. r :- p, b. r :- q. q :- r. p :- a. p :- \\+q. query(p).",      # same, other clause order
+    "0.5::a. 0.5::b. p :- \\+q. p :- a. q :- r. r :- q. r :- p, b. query(q).",      # entered from inside the sub-cycle
+    "0.5::a. 0.5::b. 0.5::c. p :- c, \\+q. p :- a. q :- r. r :- s. s :- q. s :- p, b. query(p).",
     "d1 :- d1. d1 :- \\+d2. d2 :- d2. query(d1).",                      # stratified; pinned tree raises NegativeCycle
     "d0 :- f3, f1. d0 :- d1, f0. d1 :- d0, \\+d0. 0.5::f0. 0.5::f1. 0.4::f3. query(d0).",  # DESIGN §7 observation: either
 ]
